@@ -206,4 +206,46 @@ def PathEndError():
     return PathEnd()
 
 
-ALL = [RandomModel, LocalCallModel, CtxModel]
+PJOIN = z3.Function("PJOIN", U, U, U)
+
+
+class PathModel(Model):
+    """pathlib: `a / b` is an opaque join of two opaque values."""
+
+    def binop(self, st, op, a, b, line):
+        if isinstance(op, ast.Div) and isinstance(a, VU) and isinstance(b, VU):
+            return VU(PJOIN(a.t, b.t))
+        return None
+
+
+class CopyModel(Model):
+    """copy.deepcopy / copy.copy of a dict object: a fresh object with an
+    equal value (A-STD)."""
+
+    def call_dotted(self, st, d, node):
+        eng = self.eng
+        if d in ("copy.deepcopy", "copy.copy"):
+            v = eng.eval(st, node.args[0])
+            return self.copy_value(st, v, node.lineno)
+        return NotImplemented
+
+    def call_global(self, st, name, node):
+        if self.eng.imports.get(name) in ("copy.deepcopy", "copy.copy"):
+            v = self.eng.eval(st, node.args[0])
+            return self.copy_value(st, v, node.lineno)
+        return NotImplemented
+
+    def copy_value(self, st, v, line):
+        eng = self.eng
+        if isinstance(v, VRef) and v.cls == "DictObj":
+            if st.branch(v.t == 0, f"deepcopy-none@{line}"):
+                return VRef(z3.IntVal(0), "DictObj")
+            new = eng.alloc(st, "DictObj")
+            eng.store_field(st, new, "value", eng.load_field(st, v, "value"))
+            return new
+        if isinstance(v, (VU, VInt, VBool, VNone)):
+            return v
+        raise self.E.Unsupported(f"deepcopy of {v!r}")
+
+
+ALL = [RandomModel, LocalCallModel, CtxModel, PathModel, CopyModel]
